@@ -110,8 +110,18 @@ Definition ms_store (sp : sparams) (data_enc : bytes -> bytes)
 Definition rank (sp : sparams) (id : N) : N :=
   (id / 2 ^ (sp_p sp + sp_s sp + sp_m sp)) * 2 ^ sp_p sp + id mod 2 ^ sp_p sp.
 
+(* When p + s + m >= 64 the shifted part of next_cmc vanishes and next_cmc
+   cycles through the 2^p identifiers of the class; a pending identifier is
+   then reached after ((its residue - _appended) mod 2^p) further appends
+   (the real loop runs exactly that long).  That distance is added to the
+   bound of the ordinary regime. *)
+Definition cyc_dist (sp : sparams) (app id : N) : N :=
+  let P := 2 ^ sp_p sp in (id mod P + P - app mod P) mod P.
+
 Definition close_fuel (sp : sparams) (st : mini) : nat :=
-  S (N.to_nat (maxN (map (rank sp) (akeys (ms_pend st))) - ms_app st)).
+  let cyc := if (64 <=? sp_p sp + sp_s sp + sp_m sp) && (sp_p sp <? 64)
+             then maxN (map (cyc_dist sp (ms_app st)) (akeys (ms_pend st))) else 0 in
+  S (N.to_nat (maxN (map (rank sp) (akeys (ms_pend st))) - ms_app st + cyc)).
 
 (* while len(self._chunk_buffer) > 0: self.append(b'', self.next_cmc); self.flush_buffer() *)
 Fixpoint close_loop (sp : sparams) (fuel : nat) (st : mini) : mini * outcome unit :=
